@@ -64,6 +64,11 @@ Rules6 ==
       Ent   |-> Rule(Seq2(Left(WordRx, Str(<<61>>)), Ref("Word"))),
       Word  |-> Class(<<Field("w", WordRx)>>) ]
 
+(* the start rule is itself a class: its span begins where the match began - before the leading ignorable text *)
+Rules7 ==
+    [ start |-> Class(<<Field("w", WordRx), Field("rest", Star(Ref("Word")))>>),
+      Word  |-> Class(<<Field("w", WordRx)>>) ]
+
 CR == 13          \* a carriage return is ignorable text here, but it is NOT a line break (only NL is)
 Ign == <<Rgx(RxPlus(Cls(<<sp, NL, CR>>)))>>
 
@@ -76,6 +81,7 @@ Grammar(i) ==
       [] i = 6 -> [rules |-> Rules4, ign |-> <<>>, start |-> "start"]
       [] i = 7 -> [rules |-> Rules5, ign |-> <<>>, start |-> "start"]
       [] i = 8 -> [rules |-> Rules6, ign |-> Ign, start |-> "start"]
+      [] i = 9 -> [rules |-> Rules7, ign |-> Ign, start |-> "start"]
 
 Entries(i) == CASE i \in {1, 2} -> <<"start", "Item", "Group">>
                 [] i \in {3, 4} -> <<"start", "A">>
@@ -83,6 +89,7 @@ Entries(i) == CASE i \in {1, 2} -> <<"start", "Item", "Group">>
                 [] i = 6 -> <<"start", "H">>
                 [] i = 7 -> <<"start", "Tok">>
                 [] i = 8 -> <<"start">>
+                [] i = 9 -> <<"start", "Word">>
 
 N == IF Tier = "quick" THEN 4 ELSE 5
 Texts(i) ==
@@ -100,6 +107,7 @@ Texts(i) ==
                         <<lpar, lpar, a, rpar, rpar>>, <<lpar, a, plus, b, rpar, plus, a>>, <<sp, lpar, NL, a, NL, rpar, NL>>,
                         <<a, plus, lpar, b, rpar>>, <<lpar, a>> >>
       [] i = 7 -> TextSeqUpTo(<<a, b, sp>>, N)
+      [] i = 9 -> TextSeqUpTo(<<a, sp, NL>>, N + 1) \o << <<sp, NL, a, b, sp, a, NL>>, <<NL, NL, a, sp, sp, b>> >>
       [] i = 8 -> TextSeqUpTo(<<a, 61, 59>>, N + 1)
                   \o << <<a, 61, b, 59, b, 61, a, a>>, <<a, sp, 61, NL, b, sp, 59, NL, b, 61, a, 59, sp>>, <<a, 61, b, 59, a, 61, a>> >>
       [] i = 6 -> TextSeqUpTo(<<a, sp, NL>>, N + 1) \o << <<a, b, NL, NL, b, a, sp, a>>, <<a, sp, NL, sp, b, b, NL>> >>
@@ -107,7 +115,7 @@ Texts(i) ==
 VARIABLES gi, en, done
 vars == <<gi, en, done>>
 
-Init == gi \in 1..8 /\ en \in 1..Len(Entries(gi)) /\ done = FALSE
+Init == gi \in 1..9 /\ en \in 1..Len(Entries(gi)) /\ done = FALSE
 
 RunF(G, entry, txt, p) ==
     LET r == EvalEntry(G, entry, txt, p) IN <<entry, txt, p, r.t, Finalize(r.v, txt), r.e, r.far>>
